@@ -2,6 +2,8 @@
 //! exit 0 = property held on everything explored, 1 = violation, 2 = inconclusive.
 mod canon;
 mod engine;
+mod genr;
+mod sem;
 mod lit;
 mod props;
 mod run;
